@@ -33,8 +33,11 @@ CHECKS = {
             "finished-before-use, result-identity and nothing-after-completion invariants checked on every event; a "
             "separate fault configuration injects exceptions inside execute and checks that no command that returned "
             "is ever re-entered. Sampling, not proof.",
-            "Probe commands' execute bodies are simulator stubs (they always read every referenced result at least "
-            "once); everything else is mpilot's real code from the current working tree. numpy/ply/six trusted.",
+            "Probe commands' execute bodies are simulator stubs (they read their references in the order, and as often, "
+            "as the scenario's pull plan says); a second flavour runs real EEMS commands on a simulated disk (data file "
+            "rewritten or delivered late by the environment). Also varied: operations issued from another thread, DEBUG "
+            "logging, API-only programs (object references to stand-alone commands, free-form names). Everything else "
+            "is mpilot's real code from the current working tree. numpy/ply/six trusted.",
             "DESIGN.md 5/C01"),
     "C14": ("evalsim", "exploration",
             "deterministic simulation: seeded search over cyclic reference graphs x reference kinds x textual orders x "
@@ -66,10 +69,10 @@ CHECKS = {
             "command x parameter x wrong-kind matrix at a seeded position/order, through the real library and CLI "
             "routes on a simulated disk; acceptance predicate from a reference declaration table; event-trace ordering "
             "oracle (no execute, no write-open, no stdout, no file change before the rejection)",
-            "Fault enumeration: run i takes matrix cell i mod 585 (every built-in command x {unknown command, duplicate "
-            "result, each required parameter removed, undeclared parameter, every wrong value kind per parameter kind, "
-            "producer of the wrong output kind, fuzzy/non-fuzzy swap}); the quick tier visits every cell ~15 times, the "
-            "thorough tier ~500 times, with seeded models, positions and textual orders. Each rejection must be the "
+            "Fault enumeration: run i takes matrix cell i mod 772 (every built-in command x {unknown command, duplicate "
+            "result, each required parameter removed, undeclared parameter, parameter given twice, every wrong value "
+            "kind per parameter kind, producer of the wrong output kind, fuzzy/non-fuzzy swap}, NetCDF and plug-in "
+            "cells); the quick tier visits every cell ~17 times, the thorough tier ~390 times, with seeded models, positions and textual orders. Each rejection must be the "
             "documented error naming the offender and must precede every side effect on the event trace; unfaulted "
             "twins must be accepted.",
             "Declaration table written from docs + statement is the acceptance oracle; SimFS stands in for the disk; "
@@ -80,8 +83,8 @@ CHECKS = {
             "confusion matrix, OS errors at every SimFS call, an environment actor racing the run in its TOCTOU "
             "windows, exceptions inside execute; exception-type lattice at the from_source()/run() boundary and CLI "
             "exit status / stderr oracle",
-            "Fault enumeration over a stratified extended kind-confusion matrix (929 cells) combined with seeded fault "
-            "sequences of 0-2 faults from 6 families (65 fault kinds, each counted when it actually fired). Outcome of "
+            "Fault enumeration over a stratified extended kind-confusion matrix (1215 cells) combined with seeded fault "
+            "sequences of 0-2 faults from 6 families (70 fault kinds, each counted when it actually fired). Outcome of "
             "loading+running must be success, SyntaxError or an MPilotError; for MPilotError outcomes the in-process "
             "CLI must exit non-zero with the problem/solution text on stderr and no traceback of its own.",
             "Success outcomes are not compared with a reference here. Model-file read faults precede parsing and are "
